@@ -138,9 +138,9 @@ package cache
 //@   let o = P[k]
 //@   let lv = live(o, now)
 //@   modifies view(c.items)
-//@   ensures {C01} post.loaded: res1 == lv
-//@   ensures {C01} post.value: res0 == liveV(o, now)
-//@   ensures {C01,C09} post.state: view(c.items) == ite(lv, put(P, k, ITEM(IV(val(o)), expAt(d, DEXP(c), now))), remove(P, k))
+//@   ensures {C01,C05} post.loaded: res1 == lv
+//@   ensures {C01,C05} post.value: res0 == liveV(o, now)
+//@   ensures {C01,C05,C09} post.state: view(c.items) == ite(lv, put(P, k, ITEM(IV(val(o)), expAt(d, DEXP(c), now))), remove(P, k))
 //@   ensures cacheInv(c)
 
 //@ func (*xsyncMap).GetOrCompute
@@ -420,9 +420,9 @@ package cache
 //@   let o = P[k]
 //@   let lv = liveOf(o, now)
 //@   modifies view(c.items)
-//@   ensures {C01} post.loaded: res1 == lv
-//@   ensures {C01} post.value: res0 == liveVOf(o, now)
-//@   ensures {C01,C09} post.state: view(c.items) == ite(lv, put(P, k, ITEMOf(IVOf(val(o)), expAt(d, DEXP(c), now))), remove(P, k))
+//@   ensures {C01,C05} post.loaded: res1 == lv
+//@   ensures {C01,C05} post.value: res0 == liveVOf(o, now)
+//@   ensures {C01,C05,C09} post.state: view(c.items) == ite(lv, put(P, k, ITEMOf(IVOf(val(o)), expAt(d, DEXP(c), now))), remove(P, k))
 //@   ensures cacheInvOf(c)
 
 //@ func (*xsyncMapOf[K, V]).GetOrCompute
